@@ -5,6 +5,8 @@ from ..core import AnalysisError, dotted, callname, last, const, subscript_key, 
 from ..flow import FlowEngine, State
 from ..util import body_nodes, stores_to, dict_literal_value, dict_keys
 from .shared import proto_findings
+from ..cfg import CFG
+from . import c03
 
 EXPLANATION = (
     "Static analysis of the current /repo source. Decides the structural clauses of C02: (R1) the terminal status literals "
@@ -232,6 +234,46 @@ def r3(chk, ctx):
     chk.floor("C02.R3", k, 1, "exit paths of start_execution")
 
 
+def r4(chk, ctx):
+    """the expiry backstop ends an execution at most once: its 'already handled' latch is set before end_execution
+    and is the very field/value the skip arm tests"""
+    se = ctx.mod("state_engine")
+    f = se.func("StateEngine.check_for_expired_branch_results")
+    g = CFG(f.node)
+    ends = [c for c in body_nodes(f) if isinstance(c, ast.Call) and last(callname(c)) == "end_execution"]
+    chk.ob("C02.R4", "backstop calls end_execution at one site", len(ends) == 1, "", key="%s | end_execution sites: %d" % (f.qname, len(ends)), where=f.where(), message="")
+    if len(ends) != 1:
+        return
+    loop = None
+    n = ends[0]
+    while n is not None and n is not f.node:
+        n = se.parent(n)
+        if isinstance(n, ast.For):
+            loop = n
+            break
+    skips = []
+    if loop is not None:
+        for s_ in loop.body:
+            if isinstance(s_, ast.If) and isinstance(s_.test, ast.Compare) and len(s_.test.ops) == 1 and isinstance(s_.test.ops[0], ast.Eq) \
+                    and isinstance(s_.test.comparators[0], ast.Constant) and any(isinstance(x, ast.Continue) for x in s_.body):
+                skips.append(s_)
+    chk.ob("C02.R4", "backstop loop has an 'already handled' skip arm", len(skips) == 1, "", key="%s | no latch test before end_execution" % f.qname, where=f.where(),
+           message="an expired execution whose join state lingers would be ended again on every later heartbeat")
+    if len(skips) != 1:
+        return
+    sk = skips[0]
+    field, val = norm(sk.test.left), sk.test.comparators[0].value
+    sets = [a for a in ast.walk(loop) if isinstance(a, ast.Assign) and norm(a.targets[0]) == field and isinstance(a.value, ast.Constant) and a.value.value == val]
+    ok = len(sets) >= 1 and any(g.dominates(g.node_of(a), g.containing_stmt_node(ends[0], se)) for a in sets)
+    chk.ob("C02.R4", "latch `%s = %r` is set on every path before end_execution" % (field, val), ok, "",
+           key="%s | the field tested by the skip arm (`%s == %r`) is not set before end_execution" % (f.qname, field, val), where=se.line(sk),
+           message="the backstop would call end_execution again for the same execution: repeated FAILED notifications, changing stopDate")
+    ok = g.dominates(g.node_of(sk), g.containing_stmt_node(ends[0], se))
+    chk.ob("C02.R4", "the skip arm dominates end_execution", ok, "", key="%s | skip arm does not dominate end_execution" % f.qname, where=se.line(sk), message="")
+    # the latch value can never be a live expiry: expiry is start time + timeout > 0 and the expiry test is `now > expiry`
+    c03.r6(chk, ctx)
+
+
 def r5(chk, ctx):
     p = ctx.protocol()
     n = proto_findings(chk, p, {"C02.R5"}, "C02.R5")
@@ -242,6 +284,7 @@ def run(chk, ctx):
     r1(chk, ctx)
     r2(chk, ctx)
     r3(chk, ctx)
+    r4(chk, ctx)
     r5(chk, ctx)
     chk.assume("engine-internal calls (change_state, handle_error, acknowledge, publish) do not raise; exception edges come from the may-raise table of sa/flow.py")
     chk.assume("loops run 0-or-more times; branch correlation only through the four idioms of DESIGN.md section 2")
